@@ -407,6 +407,10 @@ def run_steps(ctx, ev, st, steps, label, node):
                 g = ev.spec_bool(txt, st)
                 ctx.oblig("%s %s: %s" % (label, nm, txt), st, g, node, txt)
             st.pc.append(ev.spec_bool(concl, st))
+            for e in h.get("at", []):      # named instances of the conclusion (a consequence of it; saves the solver the instantiation)
+                gtxt = "%s <= (%s) and (%s) < %s" % (lo, e, e, hi)
+                ctx.oblig("%s induction instance in range: %s" % (label, gtxt), st, ev.spec_bool(gtxt, st), node, gtxt)
+                st.pc.append(ev.spec_bool(pred.replace("@", "(%s)" % e), st))
             continue
         g = ev.spec_bool(h, st)
         ctx.oblig("%s step: %s" % (label, h), st, g, node, h)
@@ -1263,9 +1267,11 @@ class Eval:
 
     def ev_Compare(self, n, st):
         left = self.ev(n.left, st)
-        if len(n.ops) == 1 and not isinstance(n.ops[0], (ast.In, ast.NotIn, ast.Is, ast.IsNot)) and not self.spec:
+        if len(n.ops) == 1 and not isinstance(n.ops[0], (ast.In, ast.NotIn, ast.Is, ast.IsNot)):
             right0 = self.ev(n.comparators[0], st)
-            if (isinstance(left, Seq) and left.kind == "array") or (isinstance(right0, Seq) and right0.kind == "array"):
+            arr_l, arr_r = isinstance(left, Seq) and left.kind == "array", isinstance(right0, Seq) and right0.kind == "array"
+            # in specifications only the unambiguous array-vs-scalar form is elementwise (array == array stays structural equality)
+            if ((arr_l or arr_r) and not self.spec) or (self.spec and ((arr_l and isinstance(right0, Num)) or (arr_r and isinstance(left, Num)))):
                 # NumPy elementwise comparison -> boolean array
                 sa = left if isinstance(left, Seq) else None
                 sb = right0 if isinstance(right0, Seq) else None
